@@ -8,6 +8,13 @@ LEVEL_NOTE = ("Seeded search, not proof: a clean batch is evidence for the runs 
               "engine checks the external dsharp/maxsatz binaries shipped with the repository, which run as real code.")
 
 CLAIMED = {
+ "C29": dict(
+    technique="deterministic simulation: seeded histories on a tree of ClauseDB extensions (extend / add / query), from-scratch refinement oracle, failing and alarm-interrupted adds as faults, ddmin replay",
+    text="A generated program is split into a prepared base and extra clauses; seeded histories extend the base (also extensions of extensions), add the extra clauses "
+         "to leaves (new predicates, predicates defined or only called in ancestors, probabilistic clauses and annotated disjunctions) and query every database of the tree "
+         "through reused engines; each answer is compared with a database prepared from scratch from the clauses on that database's root path, so both equivalence with "
+         "the union and isolation of the parent are decided. Faults: adds that raise and adds/queries interrupted by the virtual alarm (that child is discarded). Exploration level.",
+    design_ref="DESIGN.md §5 C29", quick_t=600, thorough_t=3600),
  "C08": dict(
     technique="deterministic simulation: seeded histories of ground/query/ground_all on shared database, targets and engines; fresh-run refinement oracle; failing and alarm-interrupted queries as faults; ddmin replay",
     text="Seeded operation histories (ground query / ground evidence / engine.query / ground_all / new target / new engine) run against one shared prepared ClauseDB, "
